@@ -106,6 +106,10 @@ def cases():  # noqa: PLR0915
         ('PUSH_LITERAL("\\\\n")', [("PUSH_LITERAL", "PUSH_LITERAL"), ("LPAREN", "("), ("STRING", "\\n"), ("RPAREN", ")")], ("PushLiteral", "\\n")),
         # character tokens are raw: the parser decodes them (once)
         ("'\\n'..'\\\\'", [("CHAR", "'\\n'"), ("RANGE_OP", ".."), ("CHAR", "'\\\\'")], ("Range", "\n", "\\")),
+        # the quote itself is a character (character = "'" ~ (escape | ANY) ~ "'"): only the delimiters are removed
+        ("'\\''..'''", [("CHAR", "'\\''"), ("RANGE_OP", ".."), ("CHAR", "'''")], ("Range", "'", "'")),
+        ("'\\x41'..'\\u{5a}'", [("CHAR", "'\\x41'"), ("RANGE_OP", ".."), ("CHAR", "'\\u{5a}'")], ("Range", "A", "Z")),
+        ("'\\t'..'\\0'", [("CHAR", "'\\t'"), ("RANGE_OP", ".."), ("CHAR", "'\\0'")], ("Range", "\t", "\0")),
         ("a", A, a),
         ("ANY", [("IDENTIFIER", "ANY")], ("BuiltIn", "ANY")),
         ("'p'..'q'", [("CHAR", "'p'"), ("RANGE_OP", ".."), ("CHAR", "'q'")], ("Range", "p", "q")),
@@ -192,12 +196,14 @@ def cases():  # noqa: PLR0915
     return out
 
 
-def check_structure(repo: Repo, where: str) -> tuple[int, list[tuple[str, str]]]:
+def check_structure(repo: Repo, where: str, only: object = None) -> tuple[int, list[tuple[str, str]]]:
     cm = program(repo, where)
     bad: list[tuple[str, str]] = []
     n = 0
     any_rule = cm.new("BuiltInRule", "ANY", cm.new("String", "<any>"), 2)
     for desc, toks, want in cases():
+        if only is not None and not only(toks):  # type: ignore[operator]
+            continue
         n += 1
         text = "x" * 8
         tokens = [cm.new("Token", K(k), v, i, text) for i, (k, v) in enumerate(toks)]
